@@ -230,6 +230,32 @@ void mode_tuner(ctx_t& c)
     d << "] landscape=" << land.kind << (inject ? " inject@" + std::to_string(bad_at) : std::string());
     c.sample = d.str();
 
+    // the same tuner OBJECT may have been used before, on the same grids with another landscape: nothing of that run may leak
+    // into this one (a remembered point would show up as a missing evaluation or as a value the callback never returned)
+    if (r.coin(0.3))
+    {
+        const auto other = make_landscape(r, s);
+        try
+        {
+            tuner->optimize(
+                s.spaces,
+                [&](const tensor2d_t& params)
+                {
+                    tensor1d_t values(params.size<0>());
+                    for (tensor_size_t t = 0; t < params.size<0>(); ++t)
+                    {
+                        std::vector<int64_t> igrid;
+                        values(t) = to_igrid(s, params.tensor(t), igrid) ? other(igrid, s.sizes) : 1.0;
+                    }
+                    return values;
+                },
+                make_null_logger());
+        }
+        catch (const std::exception&)
+        {
+        }
+        c.probe("tuner_used_before");
+    }
     bool          threw = false;
     tuner_steps_t steps;
     try
